@@ -78,7 +78,11 @@ def run(ctx):
                 none_targets.add(m["None"])
             elif "None" in rest:
                 none_targets.add(otherwise)
-        ctx.require(recvs and trig_switches, "C01.2: token wait not found in %s (recv=%d, switches=%d)" % (f.id, len(recvs), trig_switches))
+        if not (recvs and trig_switches):
+            for lb in locks:
+                ctx.ob("C01.2", "%s|lock" % f.id, "Mutex::lock on the shared writer is reachable only after the predecessor's token was received (or no predecessor exists)", False, f.loc(lb),
+                       "no wait on the trigger channel in this function (recv calls=%d, tests of the trigger slot=%d)" % (len(recvs), trig_switches))
+            continue
         # the block *after* a successful recv (its normal target) is what "passing the wait" means
         passed = {f.normal_target(bb) for bb in recvs}
         reach = f.reach([0], blocked=passed | none_targets, unwind=False)
@@ -106,6 +110,29 @@ def run(ctx):
     for f, bb, kind in facts.field_reads(SW, "on_finish"):
         ok = f.id == sw_drop.id
         ctx.ob("C01.3", "on_finish-read|%s" % f.id, "the on_finish sender is used only by the writer's Drop", ok, f.loc(bb))
+    # ... and only after this writer's own turn has come: a writer that is dropped unused (a request answered
+    # with `drop(rq.into_writer())`, or the parser abandoning a drawn writer on an error path) must not release
+    # its successor while its predecessor is still writing
+    f = sw_drop
+    recvs = [bb for bb, t in f.calls() if call_is(t, RECV, "std::sync::mpsc::Receiver::<T>::recv_timeout") and "trigger" in arg_origin_fields(f, t)]
+    none_targets = set()
+    for bb in sorted(f.live_blocks()):
+        sw = switch_on_discr(f, bb)
+        if sw and "trigger" in origin_fields(f.origin_place(sw[0]["pl"])):
+            rv, m, otherwise, rest = sw
+            if "None" in m:
+                none_targets.add(m["None"])
+            elif "None" in rest:
+                none_targets.add(otherwise)
+    passed = {f.normal_target(bb) for bb in recvs}
+    reach = f.reach([0], blocked=passed | none_targets, unwind=False)
+    for f2, bb, t in senders:
+        if f2.id != f.id:
+            continue
+        ok = bool(recvs) and bb not in reach
+        ctx.ob("C01.3", "%s|send-after-own-turn" % f.id,
+               "a writer releases its successor only after its own turn has come (its predecessor finished), even when it is dropped without ever writing",
+               ok, f.loc(bb), None if ok else "Drop sends the successor's token without waiting for this writer's trigger: dropping an unused writer (e.g. `drop(rq.into_writer())`, or the parser abandoning a writer when new_request fails) lets response k+1 overtake response k-1")
     send_blocks = {bb for f, bb, t in senders if f.id == sw_drop.id}
     rets = sw_drop.returns()
     reach = sw_drop.reach([0], blocked=send_blocks, unwind=False)
@@ -201,7 +228,9 @@ def run(ctx):
     f = respond_impl
     rp = f.call_blocks(lambda t: call_matches(t, r"response::Response::<R>::raw_print$"))
     fl = f.call_blocks(lambda t: t.get("callee") == "std::io::Write::flush")
-    ctx.require(rp and fl, "C01.8: raw_print/flush not found in %s" % f.id)
+    ctx.require(rp, "C01.8: raw_print not found in %s" % f.id)
+    if not fl:
+        ctx.ob("C01.8", "%s|flush-after-print" % f.id, "after the response is printed the writer is flushed on every non-error path before returning", False, f.loc(rp[0]), "respond_impl never flushes")
     resid = set(f.call_blocks(lambda t: t.get("callee") == "std::ops::FromResidual::from_residual"))
     after_rp = [f.normal_target(b) for b in rp]
     reach = f.reach(after_rp, blocked=set(fl) | resid, unwind=False)
@@ -229,8 +258,8 @@ def run(ctx):
     ok = not moved and not exits
     ctx.ob("C01.8", "%s|writer-dropped-here" % f.id, "the extracted writer is owned by respond_impl's frame and dropped on every exit (normal, error, unwind), after the flush",
            ok, f.loc(ex[0][0]), None if ok else "moved at %s, exits without drop %s" % (moved, exits))
-    ok = all(any(f.dominates(flb, d, unwind=False) for flb in fl) or f.blocks[d]["cleanup"] or d in f.reach([x for r in resid for x in f.succs(r, False)], unwind=False) for d in dropbbs)
-    ctx.ob("C01.8", "%s|drop-after-flush" % f.id, "on the success path the writer is dropped only after the flush", ok, f.loc(fl[0]))
+    ok = bool(fl) and all(any(f.dominates(flb, d, unwind=False) for flb in fl) or f.blocks[d]["cleanup"] or d in f.reach([x for r in resid for x in f.succs(r, False)], unwind=False) for d in dropbbs)
+    ctx.ob("C01.8", "%s|drop-after-flush" % f.id, "on the success path the writer is dropped only after the flush", ok, f.loc(fl[0]) if fl else f.loc(rp[0]))
     return {}
 
 
@@ -240,7 +269,7 @@ def find_respond_impl(facts):
     cands = []
     for k, f in facts.local_fns.items():
         if f.rec.get("impl_self_adt") == REQ and f.rec.get("impl_trait") is None:
-            if f.call_blocks(lambda t: call_matches(t, r"raw_print$")) and f.call_blocks(lambda t: t.get("callee") == "std::io::Write::flush") \
+            if f.call_blocks(lambda t: call_matches(t, r"raw_print$")) and not f.rec.get("vis_pub") \
                     and f.local_ty(1).startswith("&mut ") and f.local_ty(0).startswith("std::result::Result"):
                 cands.append(f)
     if len(cands) != 1:
